@@ -109,10 +109,10 @@ theorem bulk_dup_at_index (cfg : Cfg) (now : Int) (ordered : Bool) (c : Coll)
   rw [bulkLoop, h]
   rfl
 
-/-! ### the unrestricted statement fails (the `deadend-null` witness inside a bulk) -/
+/-! ### the unrestricted statement fails (the `operator-like-value` witness inside a bulk) -/
 
 def cexBulk : Val :=
-  .arr [.str "bulk_write", .arr [.arr [.str "InsertOne", .doc [("_id", .int 2), ("a", .str "")]]],
+  .arr [.str "bulk_write", .arr [.arr [.str "InsertOne", .doc [("_id", .int 2), ("a", .doc [("$size", .str "x")])]]],
     .bool true]
 
 theorem cexBulk_after : uniqB (stepX {} 0 cexColl cexBulk).1 = false := by decide +kernel
